@@ -47,6 +47,18 @@ def extra_kernels():
     }
   }
 }''', [('int', 'N', 0, 3)], [('int', 'in', 8, 'in'), ('int', 'out', 8, 'out')], feats='two @exclusive variables and @shared inside the parallel loop'))
+    P.append(C20.K('exclrt', '''
+@kernel void exclrt(const int N, const int M, const int *in, int *out) {
+  for (int o = 0; o < N; ++o; @outer) {
+    @exclusive int staged;
+    for (int i = 0; i < M; ++i; @inner) {
+      staged = in[o * 2 + i];
+    }
+    for (int i = 0; i < M; ++i; @inner) {
+      out[o * 2 + i] = 3 * staged + i;
+    }
+  }
+}''', [('int', 'N', 0, 3), ('int', 'M', 0, 2)], [('int', 'in', 8, 'in'), ('int', 'out', 8, 'out')], feats='@exclusive with a run-time @inner bound (storage sized by the 1024 fallback)'))
     P.append(C20.K('twopar', '''
 @kernel void twopar(const int N, const int *in, int *out) {
   for (int o = 0; o < N; ++o; @outer) {
